@@ -24,7 +24,7 @@ from harness import universe as U
 PROP = "C01"
 LEAN_PROP = "PyaModel.Props.C01"
 NAMESPACE = "Pya.C01"
-LEAN_TARGETS = ["PyaModel.Core.MiniPy", "PyaModel.Spec.MiniSem", "PyaModel.Spec.D01", "PyaModel.Core.Composite", "PyaModel.Core.Sexp", "PyaModel.Spec.Mem",
+LEAN_TARGETS = ["PyaModel.Core.MiniPy", "PyaModel.Spec.MiniSem", "PyaModel.Spec.D01", "PyaModel.Core.Composite", "PyaModel.Core.CmpChain", "PyaModel.Core.Sexp", "PyaModel.Spec.Mem",
                 "PyaModel.Generated.ClassTable"]
 ANCHORS = [
     ("pyanalyze/name_check_visitor.py", "NameCheckVisitor.visit"),
@@ -58,6 +58,15 @@ ANCHORS = [
     ("pyanalyze/name_check_visitor.py", "NameCheckVisitor._get_composite"),
     ("pyanalyze/name_check_visitor.py", "NameCheckVisitor.constraint_from_condition"),
     ("pyanalyze/name_check_visitor.py", "NameCheckVisitor._constraint_from_compare_op"),
+    ("pyanalyze/name_check_visitor.py", "NameCheckVisitor._visit_single_compare"),
+    ("pyanalyze/stacked_scopes.py", "AndConstraint"),
+    ("pyanalyze/stacked_scopes.py", "OrConstraint"),
+    ("pyanalyze/stacked_scopes.py", "NullConstraint"),
+    ("pyanalyze/predicates.py", "EqualsPredicate"),
+    ("pyanalyze/predicates.py", "InPredicate"),
+    ("pyanalyze/name_check_visitor.py", "NameCheckVisitor.composite_from_subscript"),
+    ("pyanalyze/stacked_scopes.py", "FunctionScope._resolve_value"),
+    ("pyanalyze/name_check_visitor.py", "NameCheckVisitor._compute_return_type"),
     ("pyanalyze/stacked_scopes.py", "FunctionScope.subscope"),
     ("pyanalyze/stacked_scopes.py", "FunctionScope.get_combined_scope"),
     ("pyanalyze/stacked_scopes.py", "FunctionScope.combine_subscopes"),
@@ -86,6 +95,13 @@ RULE = (
     "patterns (star first / middle / last / alone / absent, 0-3 fixed sub-patterns, nested), mapping patterns, captures, "
     "wildcards, literals, class patterns, or-patterns, as-patterns and guards; the subject and every capture are read in "
     "every case body and the subject again after the match), "
+    "in the COND stream: tests that are comparison chains of 1-3 operators (all ten: < <= > >= == != is / is not / in / not in) "
+    "over variables, literals, None, len(var), other variables and calls, alone, under `not`, and in and/or trees with opaque "
+    "operands, used in if / elif / else, `if not`, while / `while not` (with else), conditional expressions, asserts, early "
+    "returns and inside for loops; parameters typed as Literal unions, Optional, int, str, list[int] and locals assigned "
+    "from literals; every variable is read in BOTH branches and after the statement; plus calls of UNANNOTATED helpers "
+    "whose paths return values, return bare or fall off the end; and (in the COMPOSITE stream) composites t[k] over a root "
+    "that is a UNION of containers (parameter or conditional expression), narrowed by a test and read in both branches), "
     "no del, no nested functions; every loop is bounded. Functions in which pyanalyze reports "
     "any diagnostic are not judged (the property speaks about values, not diagnostics); executions in which a callee "
     "receives an argument outside its declared type are cut at that call. A case = one (function, argument tuple) execution; "
@@ -98,6 +114,12 @@ ASSUMPTIONS = [
     "three-visit scheme under the decidable side condition loopNotFix = false), by induction on the program; helper "
     "functions are assumed to return members of their declared return types (ImplOk); while, break/continue/else, try, "
     "match, generic/builtin calls, other operators and narrowing forms are covered by the execution search only",
+    "chained comparisons (Core/CmpChain.lean): proved for tests that are chains under `not`, variables ranging over unions "
+    "of int / str / None literals, each link either a plain variable against a literal (predicate constraint) or "
+    "non-narrowing (NULL_CONSTRAINT, opaque truth value): both branches keep the run-time values (chain_branches_sound); "
+    "the de-duplication / singleton unwrapping of AndConstraint.make / OrConstraint.make and the constraints of and/or "
+    "between tests are not modelled there; model vs pyanalyze on both branches of generated `if` statements is stream "
+    "`chain`, the model's truth value vs CPython stream `chainEval`",
     "mini semantics: sets/dicts iterate in their representation order; arithmetic on floats / IntEnum members and `+=` on a "
     "list reached through another name are outside the Lean value semantics (such argument tuples are not compared)",
     "runtime membership oracle: CPython isinstance plus the documented promotions int->float->complex; a TypeVar-typed "
@@ -1867,6 +1889,7 @@ def judge_module(fns, arg_sets, stats, on_exec=None):
             nontriv = False
             first = None
             cur_args = {}
+            judged_ok = set()     # (node, value) pairs of this execution already found to be members (loops repeat them)
             for ent in log:
                 if ent[0] == "enter":
                     if ent[1] in bad_fns:
@@ -1887,6 +1910,12 @@ def judge_module(fns, arg_sets, stats, on_exec=None):
                 k, val = ent
                 node, owner = nodes[k]
                 if owner in bad_fns:
+                    continue
+                try:
+                    vkey = (k, type(val), repr(val))
+                except Exception:
+                    vkey = None
+                if vkey is not None and vkey in judged_ok:
                     continue
                 ts = terms(k)
                 stats["checks"] = stats.get("checks", 0) + 1
@@ -1909,6 +1938,8 @@ def judge_module(fns, arg_sets, stats, on_exec=None):
                     # nothing is judged after it in this execution
                     stats["excluded_cross_type_equality"] = stats.get("excluded_cross_type_equality", 0) + 1
                     break
+                if r is True and vkey is not None:
+                    judged_ok.add(vkey)
                 if r is None:
                     stats["not_judged_typevar"] = stats.get("not_judged_typevar", 0) + 1
                 elif r is False and first is None:
@@ -3026,6 +3057,11 @@ def conforms_to(cls, f):
         return isinstance(val, int) or isinstance(val, float)  # an int / bool (float for complex) dropped by the negative branch
     if cls == "loopConstraintCycle":
         return bool(f.get("never"))
+    if cls == "compositeUnionRoot":
+        # the value comes from a union member other than the first one (whose narrowed element type is what was cached)
+        return f.get("root_in_first_member") is not True
+    if cls == "implicitNoneReturn":
+        return val is None
     if cls == "matchAsNested":
         # the element constraints were applied to the subject: what is left is Never, some of the subject's own union members,
         # or the subject narrowed to the class / literal of an element sub-pattern
@@ -3117,6 +3153,107 @@ def composite_facts(fnode, node):
     return in_loop, stale, join_reset
 
 
+def _ann_members(ann):
+    """The members of a Union[...] / Optional[...] / `A | B` annotation (the annotation itself otherwise)."""
+    if isinstance(ann, ast.BinOp) and isinstance(ann.op, ast.BitOr):
+        return _ann_members(ann.left) + _ann_members(ann.right)
+    if isinstance(ann, ast.Subscript) and isinstance(ann.value, ast.Name):
+        if ann.value.id == "Union":
+            elts = ann.slice.elts if isinstance(ann.slice, ast.Tuple) else [ann.slice]
+            return [m for e in elts for m in _ann_members(e)]
+        if ann.value.id == "Optional":
+            return _ann_members(ann.slice) + [ast.Constant(None)]
+    return [ann]
+
+
+def _ann_has(ann, v):
+    """Is the Python value a member of the annotation? (the annotation forms of the union-root generator only;
+    None = cannot tell)"""
+    if isinstance(ann, ast.Constant) and ann.value is None:
+        return v is None
+    ms = _ann_members(ann)
+    if len(ms) > 1:
+        rs = [_ann_has(m, v) for m in ms]
+        return True if any(r is True for r in rs) else (None if any(r is None for r in rs) else False)
+    if isinstance(ann, ast.Name):
+        cls = {"int": int, "str": str, "bool": bool, "object": object, "float": float}.get(ann.id)
+        if cls is None:
+            return None
+        return isinstance(v, cls) and not (cls is int and isinstance(v, bool))
+    if isinstance(ann, ast.Subscript) and isinstance(ann.value, ast.Name):
+        head = ann.value.id.lower()
+        elts = ann.slice.elts if isinstance(ann.slice, ast.Tuple) else [ann.slice]
+        if head == "list":
+            return _and_all([isinstance(v, list)] + [_ann_has(elts[0], x) for x in (v if isinstance(v, list) else [])])
+        if head == "dict":
+            if not isinstance(v, dict):
+                return False
+            return _and_all([_ann_has(elts[0], k) for k in v] + [_ann_has(elts[1], x) for x in v.values()])
+        if head == "tuple":
+            if not isinstance(v, tuple):
+                return False
+            if len(elts) == 2 and isinstance(elts[1], ast.Constant) and elts[1].value is Ellipsis:
+                return _and_all([_ann_has(elts[0], x) for x in v])
+            if len(elts) != len(v):
+                return False
+            return _and_all([_ann_has(e, x) for e, x in zip(elts, v)])
+    return None
+
+
+def _and_all(rs):
+    return False if any(r is False for r in rs) else (None if any(r is None for r in rs) else True)
+
+
+def union_root_facts(fnode, node, f):
+    """(unionRoot, narrowedByTest) for a failing subscript read `t[k]...`; sets f["root_in_first_member"]."""
+    ap = access_path(node)
+    if ap is None or not isinstance(node, ast.Subscript):
+        return None
+    root, _ = ap
+    text = ast.unparse(node)
+    params = [a.arg for a in fnode.args.args]
+    union_root = False
+    reassigned = any(isinstance(st, ast.Assign) and any(isinstance(t, ast.Name) and t.id == root for t in st.targets)
+                     for st in ast.walk(fnode))
+    if root in params and not reassigned:
+        ann = fnode.args.args[params.index(root)].annotation
+        ms = [m for m in _ann_members(ann) if isinstance(m, ast.Subscript)] if ann is not None else []
+        union_root = len(ms) >= 2
+        if union_root and f.get("fn") == fnode.name and f.get("args") is not None:
+            try:
+                val = V.obj_to_py(f["args"][params.index(root)])
+                f["root_in_first_member"] = _ann_has(_ann_members(ann)[0], val)
+            except Exception:
+                pass
+    else:
+        for st in ast.walk(fnode):
+            if isinstance(st, ast.Assign) and any(isinstance(t, ast.Name) and t.id == root for t in st.targets) and \
+                    isinstance(st.value, ast.IfExp):
+                union_root = True
+    narrowed = False
+    for st in ast.walk(fnode):
+        test = st.test if isinstance(st, (ast.If, ast.While, ast.Assert, ast.IfExp)) else None
+        if test is not None and st.lineno <= node.lineno and any(
+                isinstance(x, ast.Subscript) and ast.unparse(x) == text for x in ast.walk(test)):
+            narrowed = True
+    return union_root, narrowed
+
+
+def _always_leaves(block):
+    """Does every path through the block end in return / raise (syntactically)?"""
+    for st in block:
+        if isinstance(st, (ast.Return, ast.Raise)):
+            return True
+        if isinstance(st, ast.If) and st.orelse and _always_leaves(st.body) and _always_leaves(st.orelse):
+            return True
+        if isinstance(st, ast.While) and isinstance(st.test, ast.Constant) and st.test.value is True and \
+                not any(isinstance(x, ast.Break) for x in ast.walk(st)):
+            return True
+        if isinstance(st, ast.Try) and not st.handlers and st.finalbody and _always_leaves(st.finalbody):
+            return True
+    return False
+
+
 def classify_requests(failures, fn_src_of):
     """Driver lines for the failures: [(failure index, line, python-mirror answer)]."""
     reqs = []
@@ -3141,6 +3278,29 @@ def classify_requests(failures, fn_src_of):
                         [x.value.value for x in ast.walk(ma.pattern) if isinstance(x, ast.MatchValue) and isinstance(x.value, ast.Constant)] +
                         [x.value for x in ast.walk(ma.pattern) if isinstance(x, ast.MatchSingleton)])
                     break
+        if isinstance(node, ast.Subscript):
+            uf = union_root_facts(fnode, node, f)
+            if uf is not None and uf[0]:
+                reqs.append((i, "curt %d %d" % uf, ["compositeUnionRoot"] if all(uf) else []))
+        call = node if isinstance(node, ast.Call) else None
+        if isinstance(node, ast.Name):
+            # a name whose value is the result of a call (the call's own inferred value may be Any with extra metadata,
+            # which every object belongs to: the omission then shows at the first narrowing of the name)
+            for st in ast.walk(fnode):
+                if isinstance(st, ast.Assign) and len(st.targets) == 1 and isinstance(st.targets[0], ast.Name) and \
+                        st.targets[0].id == node.id and isinstance(st.value, ast.Call) and st.lineno < node.lineno:
+                    call = st.value
+        if call is not None and isinstance(call.func, ast.Name):
+            callee = call.func.id
+            try:
+                csrc = fn_src_of({"owner": callee, "fn": callee, "module": f.get("module")})
+            except Exception:
+                csrc = None
+            if csrc:
+                cdef = next((st for st in ast.parse(csrc).body if isinstance(st, ast.FunctionDef) and st.name == callee), None)
+                if cdef is not None:
+                    uf = (cdef.returns is None, not _always_leaves(cdef.body))
+                    reqs.append((i, "unret %d %d" % uf, ["implicitNoneReturn"] if all(uf) else []))
         facts = composite_facts(fnode, node) if isinstance(node, (ast.Name, ast.Subscript, ast.Attribute)) else None
         if facts is not None and any(facts):
             mirror = (["compositeInLoop"] if facts[0] else []) + (["compositeStaleParent"] if facts[1] else []) + \
@@ -3186,7 +3346,7 @@ def classify(ctx, failures, fn_src_of, with_model=True):
                 ctx.disagree("cls", {"line": line}, mirror, answers[j])
         else:
             ans = mirror or []
-        f["classes"] = (ans + f.get("classes", [])) if line.startswith(("subl", "comp", "masq")) else (f.get("classes", []) + ans)
+        f["classes"] = (ans + f.get("classes", [])) if line.startswith(("subl", "comp", "masq", "curt", "unret")) else (f.get("classes", []) + ans)
         if line.startswith("cls"):
             f["skeleton"] = line
     for f in failures:
@@ -3402,6 +3562,70 @@ class CompositeGen:
         return {"name": self.name, "ptypes": [], "ret": T(INT), "src": "\n".join([head] + body), "num_eq": False}, argsets
 
 
+def _dct(**kv):
+    return ("dict", [("str", k) for k in kv], list(kv.values()))
+
+
+_OI, _OS = Un(T(INT), NONE_T), Un(T(STR), NONE_T)
+_NONE = ("none",)
+UNION_ROOTS = [
+    # (declared type of the root: a union of containers, literal keys, element kind per member, argument objects)
+    (Un(("seq", TUPLE, [_OI]), ("generic", LIST, [_OS])), [0],
+     [("tuple", [_NONE]), ("tuple", [("int", 1)]), ("list", [_NONE]), ("list", [("str", "a")]), ("list", [("str", "")])]),
+    (Un(("seq", TUPLE, [T(INT), T(INT)]), ("seq", TUPLE, [T(STR), T(STR)])), [0, 1],
+     [("tuple", [("int", 1), ("int", 2)]), ("tuple", [("int", 0), ("int", 0)]), ("tuple", [("str", "a"), ("str", "b")]), ("tuple", [("str", ""), ("str", "a")])]),
+    (Un(("generic", LIST, [T(INT)]), ("generic", LIST, [T(STR)])), [0],
+     [("list", [("int", 1)]), ("list", [("int", 0), ("int", 2)]), ("list", [("str", "a")]), ("list", [("str", ""), ("str", "b")])]),
+    (Un(("generic", DICT, [T(STR), _OI]), ("generic", DICT, [T(STR), _OS])), ["a"],
+     [_dct(a=("int", 1)), _dct(a=_NONE), _dct(a=("str", "x")), _dct(a=("str", ""), b=_NONE)]),
+    (Un(("generic", LIST, [_OS]), ("seq", TUPLE, [_OI, T(STR)])), [0],
+     [("list", [("str", "a")]), ("list", [_NONE]), ("tuple", [("int", 1), ("str", "a")]), ("tuple", [_NONE, ("str", "")])]),
+    # controls: the members agree on the element type
+    (Un(("generic", LIST, [_OI]), ("generic", TUPLE, [_OI])), [0],
+     [("list", [("int", 1)]), ("list", [_NONE]), ("tuple", [("int", 0)]), ("tuple", [_NONE, ("int", 1)])]),
+    (Un(("seq", TUPLE, [_OI, T(INT)]), ("seq", TUPLE, [_OI, T(STR)])), [0, 1],
+     [("tuple", [("int", 1), ("int", 2)]), ("tuple", [_NONE, ("int", 0)]), ("tuple", [("int", 0), ("str", "a")]), ("tuple", [_NONE, ("str", "")])]),
+]
+
+
+class UnionRootGen:
+    """A composite `t[k]` over a root that is a UNION of containers, narrowed by a test and read in both branches and
+    after the statement (the root is a parameter, or a local assigned a conditional expression of two displays)."""
+
+    def __init__(self, rng, name, feats):
+        self.rng, self.name, self.feats = rng, name, feats
+
+    def generate(self):
+        rng = self.rng
+        ty, keys, objs = rng.choice(UNION_ROOTS)
+        key = repr(rng.choice(keys))
+        comp = "t[%s]" % key
+        test = rng.choice(["%s is not None", "%s is None", "isinstance(%s, int)", "isinstance(%s, str)", "%s == 1", "%s == 'a'",
+                           "%s", "not %s", "not isinstance(%s, str)"]) % comp
+        self.feats["c_union_root"] = self.feats.get("c_union_root", 0) + 1
+        head = "def %s(t: %s, p: Optional[int], q: Optional[str], c: bool) -> int:" % (self.name, ty_src(ty))
+        lines = []
+        if key == "0" and rng.random() < 0.25:
+            # a local union root instead of the parameter
+            lines.append("    t = [p] if c else (q,)")
+            self.feats["c_union_root_local"] = self.feats.get("c_union_root_local", 0) + 1
+        shape = rng.choice(["if", "if", "ret", "ifexp", "assert", "nested"])
+        if shape == "if":
+            lines += ["    if %s:" % test, "        v1 = %s" % comp, "        v2 = t", "    else:", "        v3 = %s" % comp, "    v4 = %s" % comp]
+        elif shape == "ret":
+            lines += ["    if %s:" % test, "        v1 = %s" % comp, "        return 1", "    v2 = %s" % comp]
+        elif shape == "ifexp":
+            lines += ["    v1 = (%s, 0) if %s else (%s, 1)" % (comp, test, comp), "    v2 = %s" % comp]
+        elif shape == "assert":
+            lines += ["    assert %s" % test, "    v1 = %s" % comp]
+        else:
+            lines += ["    if c:", "        if %s:" % test, "            v1 = %s" % comp, "        else:", "            v2 = %s" % comp,
+                      "        v3 = %s" % comp, "    v4 = %s" % comp]
+        lines.append("    return 0")
+        argsets = [[o, rng.choice([_NONE, ("int", 1)]), rng.choice([_NONE, ("str", "a")]), ("bool", b)] for o in objs for b in (0, 1)]
+        return {"name": self.name, "ptypes": [ty, _OI, _OS, T(BOOL)], "ret": T(INT), "src": "\n".join([head] + lines), "num_eq": False}, argsets
+
+
 def composite_stream(ctx, stats, feats, on_exec):
     """Returns (failures, modules): functions of the COMPOSITE grammar, judged like the rest."""
     rng = ctx.rng
@@ -3412,6 +3636,10 @@ def composite_stream(ctx, stats, feats, on_exec):
         fns, args = [], {}
         for i in range(per_mod):
             f, a = CompositeGen(rng, "k%d" % i, feats).generate()
+            fns.append(f)
+            args[f["name"]] = a
+        for i in range(3):
+            f, a = UnionRootGen(rng, "u%d" % i, feats).generate()
             fns.append(f)
             args[f["name"]] = a
         try:
@@ -3894,13 +4122,59 @@ class CondGen:
         return {"name": self.name, "ptypes": [t for t, _, _ in chosen] + [T(BOOL)], "ret": T(INT), "src": src, "num_eq": False}, argsets
 
 
+class UnannotatedGen:
+    """An UNANNOTATED module-level helper (some paths return a value, some fall off the end, some use a bare return) and
+    an annotated caller that records the result of the call."""
+
+    def __init__(self, rng, k, feats):
+        self.rng, self.k, self.feats = rng, k, feats
+
+    def generate(self):
+        rng = self.rng
+        h, name = "h%d" % self.k, "g%d" % self.k
+        lit = lambda: rng.choice(["1", "'a'", "(1, 'a')", "a", "0", "[a]"])
+        test = rng.choice(["flag", "a is None", "a == 1", "0 < a < 2", "not flag", "a != 0 != flag", "a in (1, 2)"])
+        shape = rng.choice(["falls", "falls", "elif", "bare", "all", "for", "while", "try", "nested"])
+        self.feats["unannotated_" + shape] = self.feats.get("unannotated_" + shape, 0) + 1
+        b = ["def %s(a, flag):" % h]
+        if shape == "falls":
+            b += ["    if %s:" % test, "        return %s" % lit()]
+        elif shape == "elif":
+            b += ["    if %s:" % test, "        return %s" % lit(), "    elif flag:", "        return %s" % lit(), "    else:", "        b = a"]
+        elif shape == "bare":
+            b += ["    if %s:" % test, "        return %s" % lit(), "    return"]
+        elif shape == "all":
+            b += ["    if %s:" % test, "        return %s" % lit(), "    else:", "        return %s" % lit()]
+        elif shape == "for":
+            b += ["    for x in (1, 2):", "        if a == x:", "            return %s" % rng.choice(["x", "1", "'a'"])]
+        elif shape == "while":
+            b += ["    while %s:" % test, "        return %s" % lit()]
+        elif shape == "try":
+            b += ["    try:", "        if %s:" % test, "            return %s" % lit(), "    finally:", "        b = a"]
+        else:
+            b += ["    if flag:", "        if %s:" % test, "            return %s" % lit(), "    else:", "        return %s" % lit()]
+        ms = rng.choice([[0, 1, 2], [1, 5], [1, 2, None]])
+        c = ["def %s(p0: %s, c: bool) -> int:" % (name, ty_src(_lits(*ms))), "    r = %s(p0, c)" % h, "    v1 = r"]
+        if rng.random() < 0.4:
+            c += ["    if r is None:", "        v2 = r", "    else:", "        v3 = r"]
+        c.append("    return 0")
+        helper = {"name": h, "ptypes": [OBJECT_T, OBJECT_T], "ret": OBJECT_T, "src": "\n".join(b), "num_eq": False}
+        caller = {"name": name, "ptypes": [_lits(*ms), T(BOOL)], "ret": T(INT), "src": "\n".join(c), "num_eq": False}
+        argsets = [[V.py_to_obj(m), ("bool", bb)] for m in ms for bb in (0, 1)]
+        return helper, caller, argsets
+
+
 def cond_stream(ctx, stats, feats, on_exec):
     rng = ctx.rng
-    n_fns = ctx.n(300, 6000)
+    n_fns = ctx.n(300, 4000)
     per_mod = 25
     failures, modules = [], {}
     for m in range((n_fns + per_mod - 1) // per_mod):
         fns, args = [], {}
+        for i in range(3):
+            hf, cf, a = UnannotatedGen(rng, i, feats).generate()
+            fns += [hf, cf]
+            args[cf["name"]] = a
         for i in range(per_mod):
             f, a = CondGen(rng, "k%d" % i, feats).generate()
             fns.append(f)
@@ -3912,7 +4186,7 @@ def cond_stream(ctx, stats, feats, on_exec):
             ctx.tag("module_crash_" + type(e).__name__)
             continue
         if m == 0 and fns:
-            ctx.sample({"cond_function": fns[0]["src"]})
+            ctx.sample({"cond_function": fns[6]["src"]})
         for f in fl:
             f["module"] = id(fns)
             f["stream"] = "cond"
@@ -3920,6 +4194,222 @@ def cond_stream(ctx, stats, feats, on_exec):
             modules[id(fns)] = fns
         failures += fl
     return failures, modules
+
+# ------------------------------------------------------------------ chained comparisons: model (Core/CmpChain.lean) vs pyanalyze / CPython
+CHAIN_VARS = [[0, 1, 2], [1, 5], [0, 1], [1, 2, 3], [1, 2, None], [0, None], ["a", "b"], ["a", "b", None], ["", "a"]]
+_MIRROR = {"<": ">", "<=": ">=", ">": "<", ">=": "<=", "==": "==", "!=": "!=", "is": "is", "is not": "is not"}
+_ORD = {"<": "lt", "<=": "le", ">": "gt", ">=": "ge"}
+
+
+def _lit_atom(v):
+    return "n" if v is None else ("i%d" % v if isinstance(v, int) else "s" + v)
+
+
+def _atom_lit(a):
+    return None if a == "n" else (int(a[1:]) if a[0] == "i" else a[1:])
+
+
+class ChainGen:
+    """`if <test>: reads else: reads` where <test> is a comparison chain (1-3 links, possibly under `not`s) over
+    Literal-union parameters, literals, None and opaque operands; with its translation to Core/CmpChain.lean."""
+
+    def __init__(self, rng, name):
+        self.rng, self.name = rng, name
+
+    def operand(self, fam):
+        """(source, kind, payload): kind v (narrowable variable), l (literal), o (opaque)."""
+        rng = self.rng
+        r = rng.random()
+        vs = [i for i, ms in enumerate(self.vars) if self.fam(ms) == fam]
+        if vs and r < 0.45:
+            i = rng.choice(vs)
+            return "p%d" % i, "v", i
+        if r < 0.8:
+            v = rng.choice([0, 1, 2, 3, 5] if fam == "I" else ["a", "b", ""])
+            return repr(v), "l", v
+        if r < 0.86:
+            return "None", "l", None
+        if fam == "I":
+            return rng.choice(["o0", "o1", "inc(o0)", "ident(o1)"] + (["inc(p%d)" % i for i in vs if None not in self.vars[i]][:1])), "o", None
+        return rng.choice(["t0", "ident(t0)"]), "o", None
+
+    @staticmethod
+    def fam(ms):
+        return "S" if any(isinstance(m, str) for m in ms) else "I"
+
+    def can_order(self, a):
+        # ordering comparisons raise (and pyanalyze reports them) on None
+        return not (a[1] == "l" and a[2] is None) and not (a[1] == "v" and None in self.vars[a[2]])
+
+    def link(self, a, op, b):
+        """The model's reading of `a op b` (`_visit_single_compare`)."""
+        if op in ("in", "not in"):
+            if a[1] == "v":
+                return "(a %d (in %s) %d)" % (a[2], " ".join(_lit_atom(x) for x in b[2]), op == "in")
+            return "(o)"
+        if b[1] == "l":
+            var, lit, o = a, b[2], op
+        elif a[1] == "l":
+            var, lit, o = b, a[2], _MIRROR[op]
+        else:
+            return "(o)"
+        if var[1] != "v":
+            return "(o)"
+        if o in _ORD:
+            return "(a %d (ord %s %s) 1)" % (var[2], _ORD[o], _lit_atom(lit))
+        return "(a %d (eq %s) %d)" % (var[2], _lit_atom(lit), o in ("==", "is"))
+
+    def chain(self):
+        rng = self.rng
+        fam = rng.choice(["I", "I", "I", "S"]) if any(self.fam(ms) == "S" for ms in self.vars) else "I"
+        n = rng.choice([1, 2, 2, 2, 3])
+        ops_src, links = [], []
+        a = self.operand(fam)
+        src = a[0]
+        for i in range(n):
+            ops = ["==", "!="] * 2
+            if self.can_order(a):
+                ops += ["<", "<=", ">", ">="] * 2
+            if i == n - 1 and a[1] != "l":
+                ops += ["in", "not in"]
+            op = rng.choice(ops)
+            if op in ("in", "not in"):
+                pool = [0, 1, 2, 3, 5] if fam == "I" else ["a", "b", ""]
+                elts = rng.sample(pool, rng.choice([1, 2, 2, 3])) + ([None] if rng.random() < 0.3 else [])
+                body = ", ".join(repr(x) for x in elts)
+                form = rng.choice(["(%s,)", "[%s]", "{%s}"])
+                b = (form % body, "c", elts)
+            else:
+                b = self.operand(fam)
+                while op in _ORD and not self.can_order(b):
+                    b = self.operand(fam)
+                if op in ("==", "!=") and b[1] == "l" and b[2] is None and rng.random() < 0.7:
+                    op = "is" if op == "==" else "is not"
+                if op in ("==", "!=") and a[1] == "l" and a[2] is None and rng.random() < 0.5:
+                    op = "is" if op == "==" else "is not"
+            links.append((a, op, b))
+            src += " %s %s" % (op, b[0])
+            a = b
+        return src, links
+
+    def generate(self):
+        rng = self.rng
+        self.vars = [rng.choice(CHAIN_VARS) for _ in range(rng.choice([1, 2, 2, 3]))]
+        src, links = self.chain()
+        model = "(chain %s)" % " ".join(self.link(*l) for l in links)
+        for _ in range(rng.choice([0, 0, 0, 1, 1, 2])):
+            src, model = "not (%s)" % src, "(not %s)" % model
+        names = ", ".join("p%d" % i for i in range(len(self.vars)))
+        head = "def %s(%s, o0: int, o1: int, t0: str) -> int:" % (
+            self.name, ", ".join("p%d: %s" % (i, ty_src(_lits(*ms))) for i, ms in enumerate(self.vars)))
+        text = "\n".join([head, "    if %s:" % src, "        v1 = (%s,)" % names, "    else:", "        v2 = (%s,)" % names, "    return 0"])
+        return {"name": self.name, "src": text, "test": src, "model": model, "vars": self.vars, "links": links}
+
+
+def chain_stream(ctx, with_model=True):
+    """Correspondence: the values pyanalyze infers for the variables in both branches of `if <chain test>` vs
+    `Test.branches` of Core/CmpChain.lean (stream chain); the value of the test under CPython vs `Test.eval`
+    (stream chainEval)."""
+    rng = ctx.rng
+    n_fns = ctx.n(250, 2500)
+    per_mod = 25
+    for m in range((n_fns + per_mod - 1) // per_mod):
+        cases = [ChainGen(rng, "c%d" % i).generate() for i in range(per_mod)]
+        body = "\n".join(c["src"] for c in cases) + "\n"
+        src = prelude_for(body) + body
+        try:
+            fails, tree, vals = analyse(src)
+        except Exception as e:
+            ctx.tag("chain_module_crash_" + type(e).__name__)
+            continue
+        ranges = fn_ranges(tree)
+        bad = set()
+        for f in fails:
+            for name, (a, b) in ranges.items():
+                if f["lineno"] is not None and a <= f["lineno"] <= b:
+                    bad.add(name)
+        fnodes = {st.name: st for st in tree.body if isinstance(st, ast.FunctionDef)}
+        lines, metas = [], []
+        for c in cases:
+            if c["name"] in bad:
+                ctx.tag("chain_fn_with_diagnostics")
+                continue
+            # pyanalyze: the literals inferred for each variable in the two branches
+            ifn = next(st for st in fnodes[c["name"]].body if isinstance(st, ast.If))
+            impl = []
+            ok = True
+            for branch in (ifn.body, ifn.orelse):
+                ent = []
+                for i, nm in enumerate(branch[0].value.elts):
+                    vs = vals.get(id(nm))
+                    if not vs:
+                        ok = False
+                        break
+                    try:
+                        t = decode(vs[-1])
+                    except Unenc:
+                        ok = False
+                        break
+                    ms = t[1] if t[0] == "union" else [t]
+                    if any(x[0] != "pyknown" for x in ms):
+                        ok = False
+                        break
+                    ent.append(sorted(_lit_atom(x[1]) for x in ms))
+                if not ok:
+                    break
+                impl.append(ent)
+            if not ok:
+                ctx.tag("chain_not_literal_values")
+                continue
+            # environments for the run-time reading
+            envs = []
+            for _ in range(3):
+                rho = [rng.choice(ms) for ms in c["vars"]]
+                g = {"o0": rng.choice([0, 1, 3]), "o1": rng.choice([0, 1, 2]), "t0": rng.choice(["a", "b"]), "inc": lambda n: n + 1, "ident": lambda x: x}
+                g.update({"p%d" % i: v for i, v in enumerate(rho)})
+                try:
+                    truth = bool(eval(c["test"], dict(g)))
+                    om = []
+                    for (a, op, b) in c["links"]:
+                        try:
+                            om.append(bool(eval("%s %s %s" % (a[0], op, b[0]), dict(g))))
+                        except TypeError:
+                            om.append(False)
+                except TypeError:
+                    ctx.tag("chain_eval_raises")
+                    continue
+                envs.append((rho, om, truth, {k: v for k, v in g.items() if not callable(v)}))
+            scope = " ".join("(%d %s)" % (i, " ".join(_lit_atom(x) for x in ms)) for i, ms in enumerate(c["vars"]))
+            for rho, om, truth, g in (envs or [([ms[0] for ms in c["vars"]], [False] * len(c["links"]), None, {})]):
+                lines.append("(chn (scope %s) (test %s) (env %s) (omega %s))" % (
+                    scope, c["model"], " ".join("(%d %s)" % (i, _lit_atom(v)) for i, v in enumerate(rho)), " ".join("1" if b else "0" for b in om)))
+                metas.append((c, impl, truth, g))
+        outs = run_driver(lines) if (with_model and lines) else [None] * len(lines)
+        seen = set()
+        for (c, impl, truth, g), out in zip(metas, outs):
+            ctx.count(1, chain=1)
+            if out is None:
+                continue
+            case = {"src": c["src"], "model": c["model"], "env": g}
+            try:
+                pp, nn, hh = [x.strip() for x in out.split("|")]
+                model = [[sorted(x for x in e.split("=")[1].split(",") if x) for e in part[2:].split(";")] for part in (pp, nn)]
+            except Exception:
+                ctx.disagree("chain", case, impl, out)
+                continue
+            if c["name"] not in seen:
+                seen.add(c["name"])
+                ctx.corr("chain")
+                if model[0] != model[1]:
+                    ctx.nontriv({"chain": c["test"], "vars": c["vars"]})
+                if model != impl:
+                    ctx.disagree("chain", case, impl, out)
+            if truth is not None:
+                ctx.corr("chainEval")
+                if hh != "H %d" % truth:
+                    ctx.disagree("chainEval", case, truth, out)
+        if m == 0 and cases:
+            ctx.sample({"chain_function": cases[0]["src"], "chain_model": cases[0]["model"]})
 
 
 def corpus_entries():
@@ -4024,6 +4514,9 @@ def exec_stream(ctx, with_model=True):
     mfl, mmods = match_stream(ctx, stats, feats, on_exec)
     all_failures += mfl
     modules.update(mmods)
+    kfl, kmods = cond_stream(ctx, stats, feats, on_exec)
+    all_failures += kfl
+    modules.update(kmods)
     for k, v in stats.items():
         ctx.tag("x_" + k, v)
     for k, v in feats.items():
@@ -4143,6 +4636,7 @@ def run(ctx):
     mini_stream(ctx, mini_progs(ctx))
     malformed(ctx)
     composite_reg_stream(ctx)
+    chain_stream(ctx)
     exec_stream(ctx)
 
 
